@@ -73,6 +73,12 @@ Definition enc_array (item : ty) (shape : list (option Z)) (order : list nat) (s
     ++ concat (map (fun o => bytes (enc64 o)) offs)
     ++ padto (concat (map padslot es_mem)) (total - hdr - 8 * n).
 
+(* every header word is a signed 64-bit integer: a value whose dimensions or strides do not fit has no image *)
+Definition fits64b (x : Z) : bool := (- 2^63 <=? x) && (x <? 2^63).
+Definition words_fit (item : ty) (shape : list (option Z)) (order : list nat) (sh : list Z) : bool :=
+  forallb fits64b (dyn_dims shape sh) &&
+  forallb fits64b (get_strides sh order (match csize item with Some s => s | None => 8 end)).
+
 (* image of a reference-free value; None when the value does not have the type *)
 Fixpoint enc (t : ty) (v : val) {struct t} : option (list cell) :=
   match t, v with
@@ -93,7 +99,7 @@ Fixpoint enc (t : ty) (v : val) {struct t} : option (list cell) :=
       | None => None
       end
   | TArray item shape order, VArr sh items =>
-      if shape_ok shape sh && perm_ok order (length shape) && (len items =? prod sh) then
+      if shape_ok shape sh && perm_ok order (length shape) && (len items =? prod sh) && words_fit item shape order sh then
         match seqopt (map (enc item) items) with
         | Some es => Some (enc_array item shape order sh es)
         | None => None
